@@ -56,6 +56,19 @@ ld canonical_from_raw64(int nt, u64 raw)
 
 static char const* tname(Plan const& p) { return nt_name(p.nt); }
 
+// magnitudes below this (other than zero) or above its reciprocal are outside the stated domain of
+// the numeric type (results of underflow / overflow are not compared against references)
+static ld tiny_of(int nt)
+{
+    return (nt == NT_F) ? std::ldexp(1.0L, -126 + 30) : (nt == NT_D) ? std::ldexp(1.0L, -1022 + 60) : std::ldexp(1.0L, -16382 + 70);
+}
+
+static bool in_domain(int nt, ld v)
+{
+    ld const a = std::fabs(v);
+    return a == 0 || (a >= tiny_of(nt) && a <= 1 / tiny_of(nt));
+}
+
 void absorb(RunOut const& out, Report& rep)
 {
     ++rep.runs;
@@ -182,6 +195,7 @@ void oracle_c02(Plan const& p, RunCtl const& ctl, std::vector<u64> const& seg_ca
         u64 nz = 0, fin = 0;
         ld sum = 0, sumabs = 0, sumsq = 0;
         bool weights_ok = true;
+        bool dom = true;   // all values inside the exponent range the tolerances are meant for
         std::vector<ld> adj(rv.adj.size(), 0.0L), adjabs(rv.adj.size(), 0.0L);
 
         for (auto const& pr : ic.recs)
@@ -198,6 +212,7 @@ void oracle_c02(Plan const& p, RunCtl const& ctl, std::vector<u64> const& seg_ca
             }
             ld const val = round_to(p.nt, r.f * w);
             if (!std::isfinite(val)) continue;
+            if (!in_domain(p.nt, val) || !in_domain(p.nt, val * val) || !in_domain(p.nt, val * val * w)) dom = false;
             ++fin;
             sum += val;
             sumabs += std::fabs(val);
@@ -244,6 +259,12 @@ void oracle_c02(Plan const& p, RunCtl const& ctl, std::vector<u64> const& seg_ca
                 (unsigned long long) k, (unsigned long long) rv.fin, (unsigned long long) fin));
         }
 
+        if (!dom)
+        {
+            rep.probes["values-outside-exponent-range"]++;
+            continue;
+        }
+
         ld const slack = (4.0L * N + 16.0L + 2.0L * out.ranks.size()) * eps;
 
         if (!(std::fabs(rv.sum - sum) <= slack * sumabs))
@@ -268,7 +289,8 @@ void oracle_c02(Plan const& p, RunCtl const& ctl, std::vector<u64> const& seg_ca
             }
         }
 
-        if (N >= 1 && std::isfinite(rv.sum))
+        if (N >= 1 && std::isfinite(rv.sum) && in_domain(p.nt, rv.sum / N) && in_domain(p.nt, rv.sumsq / N / N) &&
+            in_domain(p.nt, (rv.sum / N) * (rv.sum / N) / N))
         {
             ld const E = rv.sum / N;
             if (!(std::fabs(rv.value - E) <= 4 * eps * std::fabs(E)))
@@ -421,6 +443,12 @@ void oracle_c07_invariants(Plan const& p, RunOut const& out, ChkptView const& v,
                 wref *= (right - left) * rv.pbins;
             }
 
+            if (!in_domain(p.nt, wref))
+            {
+                rep.probes["weight-outside-exponent-range"]++;
+                continue;
+            }
+
             if (r.w_known && !(std::fabs(r.w - wref) <= 4 * (rv.pdims + 1) * eps * std::fabs(wref)))
             {
                 rep.fail("C07", "weight", key, fmt("iteration %llu call %llu: weight %.21Lg, bins*width product %.21Lg",
@@ -480,7 +508,8 @@ void oracle_c07_share(Plan const& p, ChkptView const& v, Report& rep)
             {
                 if (t[b] == 0) continue;
                 ld const r = t[b] / norm;
-                if (round_to(p.nt, r) == 0 || r >= 1)
+                if (round_to(p.nt, r) == 0 || r >= 1 || !in_domain(p.nt, r) || !in_domain(p.nt, t[b]) ||
+                    !in_domain(p.nt, norm))
                 {
                     skip = true;
                     break;
@@ -521,17 +550,23 @@ void oracle_c07_share(Plan const& p, ChkptView const& v, Report& rep)
             for (u64 b = 1; b != B; ++b)
             {
                 ld const x = newg[b];
-                ld const step = 4 * epsT * std::max(x, std::ldexp(1.0L, -60));
+                // a boundary is interpolated as `right edge - delta / importance`: its absolute error is
+                // a few ulp of the right edge of the old bin (up to 1), not of its own magnitude
+                ld const step = 8 * epsT;
                 ld const lo = C(x - step) - slack;
                 ld const hi = C(x + step) + slack;
                 ld const share = total * b / B;
+                if (!(lo <= share && share <= hi) && std::getenv("HEPSIM_DEBUG"))
+                {
+                    for (u64 i = 0; i <= B; ++i) std::fprintf(stderr, "old[%llu]=%.21Lg new=%.21Lg data=%.21Lg t=%.21Lg imp=%.21Lg cum=%.21Lg\n", (unsigned long long) i, oldg[i], newg[i], i < B ? data[i] : 0.0L, i < B ? t[i] : 0.0L, i < B ? imp[i] : 0.0L, cum[i]);
+                }
                 if (!(lo <= share && share <= hi))
                 {
                     rep.fail("C07", "unequal-share", key, fmt(
                         "refinement of iteration %llu dimension %llu: boundary %llu at %.21Lg holds cumulative "
-                        "importance in [%.12Lg, %.12Lg] of %.12Lg, equal share wants %.12Lg",
+                        "importance in [%.21Lg, %.21Lg] of %.21Lg, equal share wants %.21Lg (slack %.3Lg)",
                         (unsigned long long) k, (unsigned long long) d, (unsigned long long) b, x, lo, hi, total,
-                        share));
+                        share, slack));
                     return;
                 }
             }
@@ -786,7 +821,7 @@ struct Placed
 };
 
 // position of one coordinate on one axis: q = (x - min) / size
-void axis(ld x, ld mn, ld size, u64 nb, ld eps, long long& k, long long& alt, bool& amb)
+void axis(int nt, ld x, ld mn, ld size, u64 nb, ld eps, long long& k, long long& alt, bool& amb)
 {
     amb = false;
     alt = -2;
@@ -807,7 +842,12 @@ void axis(ld x, ld mn, ld size, u64 nb, ld eps, long long& k, long long& alt, bo
     ld const near = std::round(q);
     k = (fl < 0 || fl >= static_cast<ld>(nb)) ? -1 : static_cast<long long>(fl);
     ld const dist = std::fabs(q - near);
-    if (dist != 0 && dist <= 4 * eps * std::max<ld>(1, std::fabs(q)))
+    // exactly on an edge (remainder computed without rounding): unambiguous, the bin right of it;
+    // note that q itself may round to an integer although the coordinate is next to the edge
+    // (and only if the offset x - min is exact in the numeric type; otherwise the subtraction
+    // alone is one rounding error)
+    bool const on_edge = std::fma(-near, size, shifted) == 0 && round_to(nt, shifted) == shifted;
+    if (!on_edge && dist <= 4 * eps * std::max<ld>(1, std::fabs(q)))
     {
         // within one rounding error of the edge `near`: either side is acceptable
         long long const lo = static_cast<long long>(near) - 1, hi = static_cast<long long>(near);
@@ -908,8 +948,8 @@ void oracle_c11(Plan const& p, RunOut const& out, ChkptView const& v, Report& re
 
                     long long kx, ax, ky = 0, ay = -2;
                     bool ambx = false, amby = false;
-                    axis(a.x, dv.xmin, dv.sx, dv.bx, eps, kx, ax, ambx);
-                    if (a.two_d) axis(a.y, dv.ymin, dv.sy, dv.by, eps, ky, ay, amby);
+                    axis(p.nt, a.x, dv.xmin, dv.sx, dv.bx, eps, kx, ax, ambx);
+                    if (a.two_d) axis(p.nt, a.y, dv.ymin, dv.sy, dv.by, eps, ky, ay, amby);
 
                     if (ambx && amby)
                     {
@@ -1003,6 +1043,11 @@ void oracle_c11(Plan const& p, RunOut const& out, ChkptView const& v, Report& re
                 ok = good;
             }
 
+            if (!ok && std::getenv("HEPSIM_DEBUG"))
+            {
+                for (u64 i = 0; i != nb; ++i) std::fprintf(stderr, "bin %llu lib %.21Lg unamb %.21Lg\n", (unsigned long long) i, dv.bins[i].sum * area, sum[i]);
+                for (auto const& m : ambs) std::fprintf(stderr, "amb %lld|%lld val %.21Lg\n", m.a, m.b, m.v);
+            }
             if (!ok)
             {
                 rep.fail("C11", "bin-content", key, fmt("iteration %llu ", (unsigned long long) k) + first_bad);
@@ -1251,6 +1296,7 @@ static u64 raw_at(Ctx const& c, u64 stream, u64 pos)
     tmp.genmode = c.genmode;
     tmp.lat_n = c.lat_n;
     tmp.lat_dims = c.lat_dims;
+    tmp.lat_active = c.lat_active;
     tmp.lat_percall = c.lat_percall;
     tmp.lat_base = c.lat_base;
     tmp.lat_points = c.lat_points;
